@@ -270,7 +270,7 @@ pub fn run(ctx: &mut Ctx) {
 			ctx,
 			fam,
 			n,
-			|| (gen::arb_value(gen::ValueCfg::MEDIUM), gen::arb_choices()),
+			|| (gen::arb_doc_value(gen::ValueCfg::MEDIUM), gen::arb_choices()),
 			|(v, ch)| {
 				let text = gen::render_doc(v, ch, gen::RenderCfg::FREE);
 				match property(&text, &ALL_EPS, Some(v)) {
